@@ -203,6 +203,10 @@ func c16(run *ev.Run, tier string) {
 				break
 			}
 		}
+		// keys of the old (v1) configuration format are unknown keys like any other
+		for _, v1 := range []string{"bindir", "files", "config_files", "empty_folders", "symlinks"} {
+			cands["removed-v1-key-"+v1] = v1
+		}
 		for class, key := range cands {
 			if existing[key] {
 				continue
@@ -479,13 +483,13 @@ func c16(run *ev.Run, tier string) {
 	// (also when the mapping has nothing for the variable: no fallback)
 	// (and for names a process always knows something about: PWD, HOME, PATH ...)
 	cwd, _ := os.Getwd()
-	for _, combo := range [][2]string{{"VERIF_LEAF", "from-the-mapping"}, {"VERIF_LEAF", ""}, {"PWD", ""}, {"HOME", ""}, {"PATH", ""}, {"TMPDIR", ""}, {"USER", ""}, {"OLDPWD", ""}} {
+	for _, combo := range [][2]string{{"VERIF_LEAF", "from-the-mapping"}, {"VERIF_LEAF", "once$VERIF_SECOND_PASS-${VERIF_SECOND_PASS}"}, {"VERIF_LEAF", ""}, {"PWD", ""}, {"HOME", ""}, {"PATH", ""}, {"TMPDIR", ""}, {"USER", ""}, {"OLDPWD", ""}} {
 		leafVar, mapped := combo[0], combo[1]
 		prevVal, hadVal := os.LookupEnv(leafVar)
 		if leafVar == "VERIF_LEAF" {
 			os.Setenv("VERIF_LEAF", "from-the-process-environment")
 		}
-		forbidden := []string{"process-environment"}
+		forbidden := []string{"process-environment", "SECOND-PASS"} // (a value supplied by the mapping is data: it is not expanded again)
 		if leafVar != "VERIF_LEAF" {
 			if hadVal && len(prevVal) > 3 {
 				forbidden = append(forbidden, prevVal)
@@ -549,7 +553,7 @@ func c16(run *ev.Run, tier string) {
 		setAll(reflect.ValueOf(c))
 		c.Version = "1.0.0"
 		yb, _ := yaml.Marshal(c)
-		rec := newRecorder(map[string]string{leafVar: mapped}, "")
+		rec := newRecorder(map[string]string{leafVar: mapped, "VERIF_SECOND_PASS": "SECOND-PASS"}, "")
 		cfg, perr := nfpm.ParseWithEnvMapping(strings.NewReader(string(yb)), rec.get)
 		parses++
 		run.Case(fmt.Sprintf("mapping-only|%d string leaves|$%s|mapping says %q", nleaves, leafVar, mapped), true)
@@ -577,7 +581,11 @@ func c16(run *ev.Run, tier string) {
 				case reflect.String:
 					for _, bad := range forbidden {
 						if s := v.String(); strings.Contains(s, bad) {
-							run.Violate("C16/expanded-from-process-environment-instead-of-mapping", map[string]any{"field": path, "value": ev.Short(s, 120), "variable": leafVar, "mapping_says": mapped})
+							key := "C16/expanded-from-process-environment-instead-of-mapping"
+							if bad == "SECOND-PASS" {
+								key = "C16/value-from-the-mapping-expanded-again"
+							}
+							run.Violate(key, map[string]any{"field": path, "value": ev.Short(s, 120), "variable": leafVar, "mapping_says": mapped})
 							break
 						}
 					}
